@@ -19,7 +19,7 @@ PROPS = {
     "C04": ("credstore", "exploration", {"quick": (12000, 75, 60), "thorough": (400000, 1500, 90)}),
     "C06": ("entropy", "exploration", {"quick": (3000, 75, 60), "thorough": (60000, 1200, 90)}),
     "C08": ("credstore", "exploration", {"quick": (8000, 75, 60), "thorough": (40000, 1800, 180)}),
-    "C09": ("derive", "exploration", {"quick": (3000, 75, 60), "thorough": (80000, 1500, 90)}),
+    "C09": ("derive", "exploration", {"quick": (2500, 75, 60), "thorough": (80000, 1800, 90)}),
     "C10": ("credstore", "fault_enumeration", {"quick": (2500, 75, 90), "thorough": (60000, 1800, 180)}),
     "C13": ("totp", "exploration", {"quick": (6000, 60, 60), "thorough": (200000, 1200, 90)}),
     "C14": ("totp", "exploration", {"quick": (6000, 60, 60), "thorough": (250000, 1500, 90)}),
